@@ -534,8 +534,10 @@ class ParentsProvider:
         if commit_id in self.shallows:
             return []
 
-        # Try to use commit graph for faster parent lookup
-        if self.commit_graph:
+        # Try to use commit graph for faster parent lookup. A stale graph may
+        # still list commits that were pruned since, so only trust it for
+        # commits that exist.
+        if self.commit_graph and commit_id in self.store:
             parents = self.commit_graph.get_parents(commit_id)
             if parents is not None:
                 return parents
